@@ -518,3 +518,11 @@ VARIANTS += [
     dict(prop="C01", name="match-entry-arms-split", benign=True,
          edits=[dict(file=HAF, find="            Self::Pair { .. } | Self::MoreThanTwo => *self = Self::MoreThanTwo,", replace="            Self::Pair { .. } => *self = Self::MoreThanTwo,\n            Self::MoreThanTwo => {}")]),
 ]
+
+MSF = "ipa-core/src/protocol/ipa_prf/shuffle/malicious.rs"
+VARIANTS += [
+    dict(prop="C05", name="mac-keys-floor", expect="KEYS-cover|amount_of_keys",
+         edits=[dict(file=MSF, find="    let amount_of_keys: usize = usize::try_from(S::Share::BITS).unwrap().div_ceil(32);", replace="    let amount_of_keys: usize = usize::try_from(S::Share::BITS).unwrap() / 32;")]),
+    dict(prop="C05", name="mac-keys-ceil-by-hand", benign=True,
+         edits=[dict(file=MSF, find="    let amount_of_keys: usize = usize::try_from(S::Share::BITS).unwrap().div_ceil(32);", replace="    let amount_of_keys: usize = (usize::try_from(S::Share::BITS).unwrap() + 31) / 32;")]),
+]
